@@ -20,7 +20,7 @@ def run(chk):
     rng = chk.rng.fork("c01")
     progs, icases = [], []
     for i in range(n):
-        p = asm_gen.gen_frozen_prog(rng) if rng.chance(0.03) else asm_gen.gen_scope_prog(rng) if rng.chance(0.04) else asm_gen.gen_tie_prog(rng) if rng.chance(0.04) else asm_gen.gen_chain_prog(rng) if rng.chance(0.08) else asm_gen.gen_prog(rng, size_static=True, collide=rng.chance(0.1), boundary=rng.chance(0.5), tame=rng.chance(0.8))
+        p = asm_gen.gen_pcassert_prog(rng) if rng.chance(0.03) else asm_gen.gen_frozen_prog(rng) if rng.chance(0.03) else asm_gen.gen_scope_prog(rng) if rng.chance(0.04) else asm_gen.gen_tie_prog(rng) if rng.chance(0.04) else asm_gen.gen_chain_prog(rng) if rng.chance(0.08) else asm_gen.gen_prog(rng, size_static=True, collide=rng.chance(0.1), boundary=rng.chance(0.5), tame=rng.chance(0.8))
         s, m = rng.chance(0.7), rng.chance(0.7)
         progs.append((p, s, m))
         icases.append((p.text(), 30, s, m))
